@@ -92,6 +92,10 @@ func C16(c *core.Ctx) {
 				_ = os.WriteFile(filepath.Join(dir, name), []byte(body), 0o644)
 			}
 		}
+		repeat := asBool(cs["repeat"])
+		if repeat { // the first env file once more, at the end of the list
+			fmt.Fprintf(&sb, "      - path: ./f1.env\n        required: true\n")
+		}
 		switch entry {
 		case "value":
 			sb.WriteString("    environment:\n      - K=e\n")
@@ -137,6 +141,9 @@ func C16(c *core.Ctx) {
 			env["K"] = penv.V
 		}
 		key := fmt.Sprintf("penv=%v files=%v environment:%s discard=%v label_files=%v labels:%s", penv, files, entry, discard, lfiles, lentry)
+		if repeat {
+			key += " first-file-repeated-last"
+		}
 		c.Eval(key, len(files)+len(lfiles) > 0)
 		opts := []func(*loader.Options){func(o *loader.Options) { o.SetProjectName("proj", true) }}
 		if discard {
@@ -145,6 +152,9 @@ func C16(c *core.Ctx) {
 		p, err := loader.LoadWithContext(context.Background(), types.ConfigDetails{WorkingDir: dir, Environment: env,
 			ConfigFiles: []types.ConfigFile{{Filename: filepath.Join(dir, "compose.yaml"), Content: []byte(doc)}}}, opts...)
 		fail := func(sig, d string) {
+			if repeat {
+				sig = "repeated-env-file:" + sig
+			}
 			c.Report(core.Finding{Sig: sig, Detail: d + " — " + key, Replay: map[string]interface{}{"document": doc, "case": key}})
 		}
 		if n%613 == 1 {
@@ -235,7 +245,7 @@ func C16(c *core.Ctx) {
 			if len(s.EnvFiles) != 0 {
 				fail("discard", "env_file references survive the discard option")
 			}
-		} else if len(s.EnvFiles) != len(files) {
+		} else if len(s.EnvFiles) != len(files) && !repeat {
 			fail("discard", fmt.Sprintf("%d env_file references kept, %d declared (discard off)", len(s.EnvFiles), len(files)))
 		}
 		return nil
